@@ -938,7 +938,8 @@ def provenance_tag(project, site, callee_qual, recv_classes, under_try, caller_c
     return None
 
 
-def event_kind(project, site, callee_qual, recv_classes=(), under_try=False, caller_cls=None, inside_other_cycle=False):
+def event_kind(project, site, callee_qual, recv_classes=(), under_try=False, caller_cls=None, inside_other_cycle=False,
+               under_bound_method=False):
     """mechanism class of one observed call event, from the generator's own knowledge: the site's kind, refined for method
     calls by where the callee that really ran is declared relative to the receiver's class (own / inherited / overriding /
     subclass override) and by the control construct around the call; when something upstream is unusual about how the callee can
@@ -952,15 +953,18 @@ def event_kind(project, site, callee_qual, recv_classes=(), under_try=False, cal
     # imported is secondary there
     if kind in OWN_MECHANISM:
         return kind
-    if kind == "recursion" and inside_other_cycle:
-        # the self-recursive function is (also) called from inside a recursion cycle of its callers: its own call site is then
+    if kind in ("recursion", "mutual-recursion") and inside_other_cycle:
+        # the recursive function is (also) called from inside a recursion cycle of its callers: its own call site is then
         # visited many times in contexts where it cannot be analysed any more
-        return "recursion{also-reached-inside-another-recursion-cycle}"
+        return kind + "{also-reached-inside-another-recursion-cycle}"
     if kind == "self-method" and callee_qual.split(".")[0] != site["recv"] and callee_qual.split(".")[0] not in ancestors(classes, site["recv"]):
         if ptag not in ("under-try", "receiver-class-without-constructor"):
             ptag = "receiver-class-without-constructor" if any(
                 classes.get(rc, {}).get("init") == "no-init" for rc in recv_classes or ()) and all(
                 classes.get(rc, {}).get("init") == "no-init" for rc in recv_classes or ()) else ("under-try" if under_try else None)
+        if ptag is None and under_bound_method:
+            # the method that makes this self-call was itself invoked through a bound-method value (bm = o.m ; bm(..))
+            return "self-method-dispatched-to-subclass-override{method-invoked-through-bound-method-value}"
     if (site.get("uses") or {}).get("form", "local") != "local":
         ctrl = ""                  # the access form is the kind; the control context is not refined further
         if ptag == "under-try":
